@@ -666,8 +666,14 @@ def to_matched_score(
         )
     ]
     ms = []
-    # sort according to onset (primary) and pitch (secondary)
-    pitch_onset = [(sn["pitch"].item(), sn["onset_div"].item()) for sn, _ in note_pairs]
+    # sort according to onset (primary) and pitch (secondary); notes that agree in
+    # both (unisons) keep the order of the score note array, not that of the
+    # alignment, because decode_performance pairs the rows with the score in this order
+    na_idx = dict((nid, i) for i, nid in enumerate(na["id"]))
+    pitch_onset = [
+        (na_idx[sn["id"].item()], sn["pitch"].item(), sn["onset_div"].item())
+        for sn, _ in note_pairs
+    ]
     sort_order = np.lexsort(list(zip(*pitch_onset)))
     snote_ids = []
     for i in sort_order:
